@@ -9,6 +9,7 @@ package cryptobyte
 // describes; an output pointer is distinct from the receiver and not inside the buffer.
 //@ pred okS(s) = s != nil && sep(s, *s)
 //@ pred okOut(out, s) = out != nil && out != s && sep(out, *s)
+//@ pred okP(p, s) = p != nil && sep(p, *s) && sep(p, s)
 
 // ---------------------------------------------------------------- string.go
 
@@ -284,5 +285,82 @@ package cryptobyte
 //@   ensures  result ==> spec.der_ok(seq(old(*s)), len(old(*s))) && old((*s)[0]) == 10 && same(*s, old(*s)[spec.der_total(seq(old(*s))):])
 //@   ensures  result ==> spec.int_minimal(seq(old(*s)[spec.der_hdrlen(seq(old(*s))):]), spec.der_bodylen(seq(old(*s)))) && spec.der_bodylen(seq(old(*s))) <= 8
 //@   ensures  result ==> int64(*out) == spec.be_signed(seq(old(*s)[spec.der_hdrlen(seq(old(*s))):]), spec.der_bodylen(seq(old(*s))))
+//@   modifies *s, *out
+//@   terminates
+
+// Base-128 sub-identifier (X.690 8.19.2): at most 4 octets are accepted here.
+//@ func (*String).readBase128Int
+//@   requires okS(s) && okP(out, s)
+//@   loop 1 invariant 0 <= i && i <= 4 && same(*s, old(*s)[i:]) && i <= len(old(*s))
+//@   loop 1 invariant spec.b128_end(seq(old(*s)), i, 4) == -1 && ret == spec.b128_val(seq(old(*s)), i)
+//@   loop 1 lemma spec.b128_step(seq(old(*s)), i)
+//@   loop 1 decreases len(*s)
+//@   ensures  result <==> spec.b128_end(seq(old(*s)), len(old(*s)), 4) >= 0
+//@   ensures  result ==> *out == spec.b128_val(seq(old(*s)), spec.b128_end(seq(old(*s)), len(old(*s)), 4) + 1)
+//@   ensures  result ==> same(*s, old(*s)[spec.b128_end(seq(old(*s)), len(old(*s)), 4) + 1:])
+//@   ensures  [minimal] result ==> old((*s)[0]) != 0x80
+//@   modifies *s, *out
+//@   terminates
+
+//@ func (*String).ReadASN1ObjectIdentifier
+//@   requires okS(s) && okP(out, s)
+//@   loop 1 invariant 2 <= i && i <= len(components) && i + len(bytes) <= len(components) && wf(bytes) && samebase(bytes, old(*s))
+//@   loop 1 decreases len(bytes)
+//@   ensures  result ==> spec.der_ok(seq(old(*s)), len(old(*s))) && old((*s)[0]) == 6 && same(*s, old(*s)[spec.der_total(seq(old(*s))):])
+//@   ensures  result ==> len(*out) >= 2 && len(*out) <= spec.der_bodylen(seq(old(*s))) + 1
+//@   modifies *s, *out
+//@   alloc <= len(*s)
+//@   terminates
+
+// BIT STRING (X.690 8.6 + 11.2.1): initial octet 0..7 = number of unused bits, zero when the
+// string is empty, and the unused bits of the last octet are zero.
+//@ func (*String).ReadASN1BitString
+//@   requires okS(s) && okP(out, s)
+//@   ensures  result ==> spec.der_ok(seq(old(*s)), len(old(*s))) && old((*s)[0]) == 3 && same(*s, old(*s)[spec.der_total(seq(old(*s))):])
+//@   ensures  result ==> spec.der_bodylen(seq(old(*s))) >= 1 && old(*s)[spec.der_hdrlen(seq(old(*s)))] <= 7
+//@   ensures  result && spec.der_bodylen(seq(old(*s))) == 1 ==> old(*s)[spec.der_hdrlen(seq(old(*s)))] == 0
+//@   ensures  result && spec.der_bodylen(seq(old(*s))) > 1 ==> old(*s)[spec.der_total(seq(old(*s))) - 1] & (1<<old(*s)[spec.der_hdrlen(seq(old(*s)))] - 1) == 0
+//@   ensures  result ==> same(out.Bytes, old(*s)[spec.der_hdrlen(seq(old(*s))) + 1 : spec.der_total(seq(old(*s)))])
+//@   ensures  result ==> out.BitLength == (spec.der_bodylen(seq(old(*s))) - 1) * 8 - int(old(*s)[spec.der_hdrlen(seq(old(*s)))])
+//@   modifies *s, *out
+//@   terminates
+
+//@ func (*String).ReadASN1BitStringAsBytes
+//@   requires okS(s) && okOut(out, s)
+//@   ensures  result <==> (spec.der_ok(seq(old(*s)), len(old(*s))) && old((*s)[0]) == 3 && spec.der_bodylen(seq(old(*s))) >= 1 && old(*s)[spec.der_hdrlen(seq(old(*s)))] == 0)
+//@   ensures  result ==> same(*s, old(*s)[spec.der_total(seq(old(*s))):]) && same(*out, old(*s)[spec.der_hdrlen(seq(old(*s))) + 1 : spec.der_total(seq(old(*s)))])
+//@   modifies *s, *out
+//@   terminates
+
+// Optional readers with a default (property C21): absent tag => nothing consumed, default
+// stored, success. Present => exactly that one element is consumed.
+//@ func (*String).ReadOptionalASN1OctetString
+//@   requires okS(s) && okOut(out, s) && sep(outPresent, *s)
+//@   ensures  !(len(old(*s)) > 0 && old((*s)[0]) == uint8(tag)) ==> result && same(*s, old(*s)) && *out == nil
+//@   ensures  outPresent != nil && result ==> (*outPresent <==> (len(old(*s)) > 0 && old((*s)[0]) == uint8(tag)))
+//@   ensures  (len(old(*s)) > 0 && old((*s)[0]) == uint8(tag)) && result ==> spec.der_ok(seq(old(*s)), len(old(*s))) && same(*s, old(*s)[spec.der_total(seq(old(*s))):])
+//@   ensures  (len(old(*s)) > 0 && old((*s)[0]) == uint8(tag)) && result ==> spec.der_ok(seq(old(*s)[spec.der_hdrlen(seq(old(*s))):]), spec.der_bodylen(seq(old(*s)))) && old(*s)[spec.der_hdrlen(seq(old(*s)))] == 4
+//@   ensures  (len(old(*s)) > 0 && old((*s)[0]) == uint8(tag)) && result ==> spec.der_total(seq(old(*s)[spec.der_hdrlen(seq(old(*s))):])) == spec.der_bodylen(seq(old(*s)))
+//@   ensures  (len(old(*s)) > 0 && old((*s)[0]) == uint8(tag)) && result ==> same(*out, old(*s)[spec.der_hdrlen(seq(old(*s))) + spec.der_hdrlen(seq(old(*s)[spec.der_hdrlen(seq(old(*s))):])) : spec.der_total(seq(old(*s)))])
+//@   modifies *s, *out, *outPresent
+//@   terminates
+
+//@ func (*String).ReadOptionalASN1Boolean
+//@   requires okS(s) && okP(out, s)
+//@   ensures  !(len(old(*s)) > 0 && old((*s)[0]) == 1) ==> result && same(*s, old(*s)) && (*out <==> defaultValue)
+//@   ensures  [one] (len(old(*s)) > 0 && old((*s)[0]) == 1) && result ==> same(*s, old(*s)[3:]) && (*out <==> old((*s)[2]) == 0xff)
+//@   ensures  (len(old(*s)) > 0 && old((*s)[0]) == 1) && result ==> spec.der_ok(seq(old(*s)), len(old(*s))) && spec.der_bodylen(seq(old(*s))) == 1
+//@   modifies *s, *out
+//@   terminates
+
+//@ func (*String).ReadASN1GeneralizedTime
+//@   requires okS(s) && okP(out, s)
+//@   ensures  result ==> spec.der_ok(seq(old(*s)), len(old(*s))) && old((*s)[0]) == 24 && same(*s, old(*s)[spec.der_total(seq(old(*s))):])
+//@   modifies *s, *out
+//@   terminates
+
+//@ func (*String).ReadASN1UTCTime
+//@   requires okS(s) && okP(out, s)
+//@   ensures  result ==> spec.der_ok(seq(old(*s)), len(old(*s))) && old((*s)[0]) == 23 && same(*s, old(*s)[spec.der_total(seq(old(*s))):])
 //@   modifies *s, *out
 //@   terminates
